@@ -178,6 +178,7 @@ func (c *cryptConn) Write(p []byte) (int, error) {
 type onlineBehaviour struct {
 	Secret       []byte
 	ForgeToken   bool      // encrypt a different verify token
+	TokenMode    string    // \"\", \"empty\", \"prefix\", \"extended\": other ways of not returning the exact token
 	WrongKey     bool      // encrypt with a key that is not the proxy's
 	BadSecretLen bool      // 15-byte secret
 	SkipJoin     bool      // do not announce to the session server (unauthenticated client)
@@ -209,6 +210,14 @@ func installOnline(c *clientModel, ss *sessionServer, ob *onlineBehaviour) {
 		if ob.ForgeToken {
 			token = append([]byte{}, token...)
 			token[0] ^= 0x55
+		}
+		switch ob.TokenMode {
+		case "empty":
+			token = []byte{}
+		case "prefix":
+			token = append([]byte{}, token[:len(token)/2]...)
+		case "extended":
+			token = append(append([]byte{}, token...), 0)
 		}
 		serverID := javaDigest(secret, req.PublicKey)
 		ob.ServerIDSeen = serverID
